@@ -5,6 +5,8 @@ use serde_json::{json, Value};
 use std::collections::{BTreeMap, BTreeSet};
 
 const RTS: [&str; 3] = ["tokio", "async-std", "smol"];
+/// families of other properties that check.sh may explore on all three builds for C18
+const FAMILIES: [&str; 4] = ["C17", "C02", "C04", "C13"];
 
 fn load(path: &str) -> Option<Value> {
     serde_json::from_str(&std::fs::read_to_string(path).ok()?).ok()
@@ -18,7 +20,16 @@ pub fn main(tier: &str) -> i32 {
     let mut machinery: Vec<String> = vec![];
     for rt in RTS {
         match (load(&format!("/verif/.target/c18-{rt}-export.json")), load(&format!("/verif/.target/c18-{rt}-evidence.json"))) {
-            (Some(x), Some(e)) => {
+            (Some(mut x), Some(e)) => {
+                // whole families of other properties explored on this build as well
+                // (c18-<rt>-export-<ID>.json, written by check.sh): same comparison
+                for fam in FAMILIES {
+                    if let Some(Value::Object(m)) = load(&format!("/verif/.target/c18-{rt}-export-{fam}.json")) {
+                        if let Some(xm) = x.as_object_mut() {
+                            xm.extend(m);
+                        }
+                    }
+                }
                 exports.push(x);
                 evid.push(e);
             }
@@ -39,6 +50,8 @@ pub fn main(tier: &str) -> i32 {
         }
     }
     let mut compared = 0u64;
+    let mut family_cases = 0u64;
+    let mut skipped_family_cases = 0u64;
     let mut total_outcomes = 0u64;
     let mut new_violations = 0;
     let mut samples: Vec<Value> = vec![];
@@ -60,8 +73,16 @@ pub fn main(tier: &str) -> i32 {
             sets.push(m);
         }
         if !complete {
-            machinery.push(format!("program {d:?} was not explored completely on every runtime"));
+            // (cases of the borrowed families that hit a cap on some build are left out)
+            if d.starts_with("family ") {
+                skipped_family_cases += 1;
+            } else {
+                machinery.push(format!("program {d:?} was not explored completely on every runtime"));
+            }
             continue;
+        }
+        if d.starts_with("family ") {
+            family_cases += 1;
         }
         compared += 1;
         total_outcomes += sets[0].len() as u64;
@@ -130,6 +151,9 @@ pub fn main(tier: &str) -> i32 {
             "samples": samples,
             "exhaustive": exhaustive,
             "programs_compared_across_runtimes": compared,
+            "of_which_cases_of_other_properties_families": family_cases,
+            "family_cases_left_out_because_a_cap_was_hit_on_some_build": skipped_family_cases,
+            "families_note": "besides C18's own programs, whole case families of other properties (quick tier: C17; thorough: C17, C02, C04, C13) are explored on all three builds with their oracles switched off, and the set of outcomes of every case is compared across the builds",
             "distinct_outcomes_of_compared_programs": total_outcomes,
             "schedules_per_runtime": {RTS[0]: g(&evid[0], "schedules"), RTS[1]: g(&evid[1], "schedules"), RTS[2]: g(&evid[2], "schedules")},
             "cases_per_runtime": g(&evid[0], "cases"),
@@ -143,7 +167,7 @@ pub fn main(tier: &str) -> i32 {
         "violations": new_violations + per_rt_viol,
     });
     std::fs::write("/verif/evidence/C18.json", serde_json::to_string_pretty(&evidence).unwrap()).expect("write evidence");
-    println!("C18 {tier}: {compared} programs compared across {} runtimes, {total_outcomes} distinct outcomes, outcome-set differences: {new_violations}", RTS.len());
+    println!("C18 {tier}: {compared} programs compared across {} runtimes ({family_cases} of them cases of other properties' families), {total_outcomes} distinct outcomes, outcome-set differences: {new_violations}", RTS.len());
     if !machinery.is_empty() {
         for m in &machinery {
             eprintln!("MACHINERY-ERROR: {m}");
